@@ -319,6 +319,18 @@ theorem gen_snappy_encoders :
     Gen.XerialFacts.snappyEncoders.map (·.1) = ["FasterCompression", "BetterCompression", "BestCompression", "default"] ∧
     Gen.XerialFacts.copyBound = ["param"] := by decide
 
+/-- **Read, then io.Copy** (round 7): a consumer may read a few buffers (any sizes ≥ 1) and then hand the reader to
+`io.Copy`, which calls `WriteTo` because the codec reader exposes it.  On every framed reference stream the bytes the Reads
+returned followed by what WriteTo wrote are the payload, each byte once: the rest of a block that a short Read left pending
+is written from `output[offset:]` (seeded C16-m9 writes `output` from its start: the consumed prefix would come twice). -/
+theorem read_then_writeTo (c : Codec) (hg : Good c) (blocks : List Bytes)
+    (hsm : ∀ b ∈ blocks, (c.enc b).length < 256 ^ 4) (ks : List Nat) (hks : ∀ k ∈ ks, 1 ≤ k) :
+    readsThenWriteTo c (newReader (frame (blocks.map c.enc))) ks = some blocks.flatten := by
+  have hrep : Rep c (newReader (frame (blocks.map c.enc))) [] blocks :=
+    Rep.startFramed _ _ rfl rfl (by simp [newReader])
+  have := readsThenWriteTo_rep c hg ks _ [] blocks hks hsm hrep
+  simpa using this
+
 /-- FULL round trip, framed: every non-empty payload, every split into Write calls, every sequence of Read
 buffer sizes: what the reader returns is the payload -/
 theorem xerial_roundtrip (c : Codec) (hg : Good c) (henc : ∀ b, b.length ≤ 32768 → (c.enc b).length < 256 ^ 4)
